@@ -16,7 +16,9 @@ RULE = ('(a) Hypothesis grammar documents biased towards nested $ \\( $$ \\[, ma
         'delimiters; (b) bounded-exhaustive strings over {$, a, {, }, space, \\(, \\), \\[, \\]}: '
         'differential against a 60-line recursive-descent reference (expected closing delimiter '
         'first, else longest delimiter): accept/reject, formula spans, display types, delimiters '
-        'and per-character modes must agree. Non-trivial = >= 2 mode switches on a root-to-leaf '
+        'and per-character modes must agree. (c) table sweep: every math environment / text-mode macro of the default database in six '
+        'hosts, blanks between \\begin / \\end and the name, mode of the text after the environment. '
+        'Non-trivial = >= 2 mode switches on a root-to-leaf '
         'path, or $ adjacent to $; distinct by source string.')
 ASSUMPTIONS = ['math environments and \\ensuremath enter math mode with no delimiter; \\text-like '
                'arguments leave math mode (as the default context declares)']
